@@ -659,6 +659,21 @@ func (p *picture) floatScalingExplains(x float64) bool {
 func c18FormatNumber(r *fw.Rec, rr *prng.R) {
 	p := genPicture(rr)
 	x := c18Doubles(rr)
+	if rr.Intn(4) == 0 && p.expDigits == 0 && p.scale == 0 {
+		// a neighbour of a rounding tie at the picture's own precision: the
+		// shortest decimal form of x is a tie plus or minus one unit in the
+		// 16th/17th digit, so rounding a pre-rounded or a decimal-text value
+		// instead of the exact one goes the wrong way
+		d := p.fracMand + p.fracOpt
+		t, _ := strconv.ParseFloat(fmt.Sprintf("%d.%0*d5", rr.Range(0, 99), d, rr.Intn(int(math.Pow10(d)))), 64)
+		if d == 0 {
+			t = float64(rr.Range(0, 99)) + 0.5
+		}
+		x = math.Nextafter(t, math.Inf(rr.Range(0, 1)*2-1))
+		if rr.Bool() {
+			x = -x
+		}
+	}
 	if math.Abs(x) > 1e22 {
 		x = math.Mod(x, 1e12)
 	}
